@@ -14,7 +14,7 @@ import z3
 from values import *
 import engine
 from engine import explore, model_bytes
-from props.common import Result, run_replay, hexs, unhex
+from props.common import guarded, Undecided, Result, run_replay, hexs, unhex
 from props.resp_common import *
 from props.c20 import TAGS
 
@@ -279,11 +279,13 @@ def run_instance(payload):
         I._fields = fields
         r = respond(I, P, cmd, mk_frame(fields))
         return entries, r
-    for pr in explore(P, harness):
+    for pr in explore(P, guarded(harness)):
         res.paths += 1
         ctx = pr.ctx
         I = pr.interp
         rec = lambda: {'cmd': cmd, 'wire': hexs(wire_of(ctx.model(), I._fields))}
+        if isinstance(pr.value, Undecided):
+            res.undecided_path(pr, replay, rec); continue
         if pr.kind == 'panic':
             res.violations.append({'what': 'decoding the listing panics: ' + pr.error.msg[:100], 'input': rec()})
             continue
@@ -317,7 +319,7 @@ def run_instance(payload):
             res.samples.append({'cmd': cmd, 'listing': wire_of(ctx.model(), I._fields).decode('latin1')})
         res.take_stats(ctx.stats); ctx.stats.__init__()
     res.wall_s = time.time() - t0
-    return res.to_dict()
+    return res.finish()
 
 # ---------------------------------------------------------------------------- native replay: reference decoder on the concrete wire
 def ref_decode(wire):
